@@ -35,6 +35,9 @@ fn chain_of_first_word(seed: u64, w: u64, max_chains: u64) -> Option<u64> {
     None
 }
 
+/// evaluation counter of the chain that carries the injected density fault (to know whether the failing evaluation was reached)
+static FAULT_EVALS: std::sync::Mutex<Option<Arc<AtomicU64>>> = std::sync::Mutex::new(None);
+
 impl Model for TModel {
     type Math<'m> = CpuMath<Target>;
     fn math<R: Rng + ?Sized>(&self, rng: &mut R) -> anyhow::Result<Self::Math<'_>> {
@@ -44,7 +47,7 @@ impl Model for TModel {
         if let Some(c) = chain {
             match &self.failure {
                 Failure::MathCtor { chain: fc } if *fc == c => anyhow::bail!("injected model construction failure in chain {c}"),
-                Failure::Logp { chain: fc, eval } if *fc == c => t = t.with_faults(vec![(*eval, FaultKind::Unrecoverable)]),
+                Failure::Logp { chain: fc, eval } if *fc == c => { t = t.with_faults(vec![(*eval, FaultKind::Unrecoverable)]); *FAULT_EVALS.lock().unwrap() = Some(t.evals.clone()); }
                 Failure::Init { chain: fc } if *fc == c => t.periodic = Some((1, FaultKind::Unrecoverable)),
                 Failure::RecoverableOnly { chain: fc, period } if *fc == c => t.periodic = Some((*period, FaultKind::Recoverable)),
                 _ => {}
@@ -136,7 +139,7 @@ macro_rules! with_settings {
     };
 }
 
-pub struct RunOut { pub result: String, pub traces: Option<Vec<(BTreeMap<String, Vec<Cell>>, BTreeMap<String, Vec<Cell>>)>>, pub events: Vec<(u64, u8, u64)>, pub pause_obs: Vec<(Vec<usize>, Vec<usize>, Vec<usize>, usize)>, pub final_progress: Option<Vec<(usize, usize, usize, usize)>>, pub hang: bool, pub api_errors: Vec<String> }
+pub struct RunOut { pub fault_evals: u64, pub result: String, pub traces: Option<Vec<(BTreeMap<String, Vec<Cell>>, BTreeMap<String, Vec<Cell>>)>>, pub events: Vec<(u64, u8, u64)>, pub pause_obs: Vec<(Vec<usize>, Vec<usize>, Vec<usize>, usize)>, pub final_progress: Option<Vec<(usize, usize, usize, usize)>>, pub hang: bool, pub api_errors: Vec<String> }
 
 static RUN_LOCK: std::sync::Mutex<()> = std::sync::Mutex::new(());
 
@@ -154,13 +157,14 @@ pub fn run<S, SC>(cfg: &Cfg, settings: S, sc: SC, to_traces: fn(<SC::Storage as 
 where S: Settings + 'static, SC: StorageConfig + 'static, <SC::Storage as TraceStorage>::Finalized: Send + 'static {
     let _g = RUN_LOCK.lock().unwrap();
     arm_schedule(cfg.sched);
+    *FAULT_EVALS.lock().unwrap() = None;
     let model = TModel { dim: cfg.dim, seed: cfg.seed, failure: cfg.failure.clone(), slow_chain: None };
     let cfg2 = cfg.clone();
     let done = Arc::new(AtomicU64::new(0));
     let done2 = done.clone();
     let handle = std::thread::spawn(move || {
         let res = std::panic::catch_unwind(std::panic::AssertUnwindSafe(|| {
-            let mut out = RunOut { result: String::new(), traces: None, events: vec![], pause_obs: vec![], final_progress: None, hang: false, api_errors: vec![] };
+            let mut out = RunOut { fault_evals: 0, result: String::new(), traces: None, events: vec![], pause_obs: vec![], final_progress: None, hang: false, api_errors: vec![] };
             let mut sampler = match Sampler::new(model, settings, sc, cfg2.num_cores, None) { Ok(s) => s, Err(e) => { out.result = format!("new_err:{e:#}"); return out; } };
             let mut outstanding = 0usize;
             for (op, delay) in &cfg2.script {
@@ -205,16 +209,23 @@ where S: Settings + 'static, SC: StorageConfig + 'static, <SC::Storage as TraceS
     let start = Instant::now();
     while done.load(Ordering::SeqCst) == 0 && start.elapsed() < Duration::from_secs(120) { std::thread::sleep(Duration::from_millis(5)); }
     let mut out = if done.load(Ordering::SeqCst) == 1 {
-        match handle.join() { Ok(Ok(o)) => o, Ok(Err(p)) | Err(p) => RunOut { result: format!("panic:{}", p.downcast_ref::<String>().cloned().or_else(|| p.downcast_ref::<&str>().map(|s| s.to_string())).unwrap_or_default()), traces: None, events: vec![], pause_obs: vec![], final_progress: None, hang: false, api_errors: vec![] } }
-    } else { RunOut { result: "hang".into(), traces: None, events: vec![], pause_obs: vec![], final_progress: None, hang: true, api_errors: vec![] } };
+        match handle.join() { Ok(Ok(o)) => o, Ok(Err(p)) | Err(p) => RunOut { fault_evals: 0, result: format!("panic:{}", p.downcast_ref::<String>().cloned().or_else(|| p.downcast_ref::<&str>().map(|s| s.to_string())).unwrap_or_default()), traces: None, events: vec![], pause_obs: vec![], final_progress: None, hang: false, api_errors: vec![] } }
+    } else { RunOut { fault_evals: 0, result: "hang".into(), traces: None, events: vec![], pause_obs: vec![], final_progress: None, hang: true, api_errors: vec![] } };
     // give detached controller/worker threads a moment to finish logging
     std::thread::sleep(Duration::from_millis(30));
     out.events = take_events();
+    out.fault_evals = FAULT_EVALS.lock().unwrap().as_ref().map(|c| c.load(Ordering::SeqCst)).unwrap_or(0);
     arm_schedule(0);
     out
 }
 
 pub fn gen_cfg(seed: u64, case: u64, tier: &str, mode: u8) -> Cfg {
+    // C13 sweep: a single transient unrecoverable density error at evaluation `case - 1_000_000` of a one-chain run, one run per
+    // evaluation index (initialisation, step-size search, every leapfrog of the first draws, the step-size re-initialisation)
+    if mode == 3 && case >= 1_000_000 {
+        return Cfg { gen_seed: seed, gen_tier: tier.to_string(), preset: 0, seed: (seed.wrapping_mul(2654435761) | 1), sched: 1, num_chains: 1, num_cores: 1,
+            num_tune: 12, num_draws: 3, dim: 2, script: vec![], end_abort: false, failure: Failure::Logp { chain: 0, eval: case - 1_000_000 } };
+    }
     let mut r = Sm::new(seed, "CTL", case * 10 + mode as u64);
     let num_chains = 1 + r.below(if tier == "thorough" { 8 } else { 5 }) as usize;
     let num_cores = *r.pick(&[1usize, 2, 3, 8, 16]);
@@ -278,7 +289,9 @@ pub fn check_case(cfg: &Cfg, mode: u8, case: u64, cases: &mut Cases, rep: &mut R
     if out.result.starts_with("panic") { rep.violation("ctl.panic", &format!("the calling thread panicked: {}", out.result), replay.clone()); return; }
     let expect_err = matches!(cfg.failure, Failure::Logp { .. } | Failure::MathCtor { .. } | Failure::Init { .. } | Failure::Storage { .. });
     // was the failure actually reached? (a chain aborted early may never get there)
-    let failed_task = out.events.iter().any(|e| e.1 == 6 && e.2 == 0);
+    // ... for a density fault: the failing evaluation index was reached by the faulty chain's density
+    let fault_raised = matches!(cfg.failure, Failure::Logp { eval, .. } if out.fault_evals > eval);
+    let failed_task = out.events.iter().any(|e| e.1 == 6 && e.2 == 0) || fault_raised;
     if expect_err {
         let reported = out.result.starts_with("wait_err") || out.result.starts_with("abort_err") || out.result.starts_with("new_err");
         if failed_task && !reported { rep.violation("ctl.failure_not_reported", &format!("a chain failed ({:?}) but the sampler reported '{}'", cfg.failure, out.result), replay.clone()); }
@@ -336,6 +349,12 @@ pub fn main_mode(prop: &str, mode: u8, tier: &str, seed: u64, outdir: &str) {
         let cfg = gen_cfg(seed, case, tier, mode);
         check_case(&cfg, mode, case, &mut cases, &mut rep, prop);
         if case < 2 { rep.sample(cfg.to_json()); }
+    }
+    if mode == 3 {
+        for eval in 0..(if tier == "thorough" { 220 } else { 90 }) {
+            let cfg = gen_cfg(seed, 1_000_000 + eval, tier, mode);
+            check_case(&cfg, mode, 1_000_000 + eval, &mut cases, &mut rep, prop);
+        }
     }
     cases.write(&format!("{outdir}/{prop}.cases")).unwrap();
     rep.write(&format!("{outdir}/{prop}.report.json"));
